@@ -22,7 +22,7 @@ RULE = ('streams of 0-300 bytes over the alphabet {a, b, CR, LF} (delimiters of 
         'ones included, straddle chunk edges); all 2^(n-1) compositions of short streams (n <= 10; 12 in '
         'thorough) systematically, then random compositions down to one byte at a time; recvsize 1-64; maxsize '
         'around the delimiter position; socket timeouts and virtual-clock jumps between any two chunks, each '
-        'timed-out call retried; send scripts of partial counts and timeouts; netstring payloads re-chunked; '
+        'timed-out call retried; send scripts of partial counts, timeouts, EAGAIN and slow sends during which the deadline passes; netstring payloads re-chunked; '
         'distinct = distinct (stream, composition, call list) cases in which a delimiter or size boundary '
         'straddled a chunk edge or a timeout was injected')
 ASSUMPTIONS = [
@@ -103,6 +103,11 @@ class ScriptedSocket(object):
             if ev == 'error':
                 import errno as _e
                 raise OSError(_e.EAGAIN, 'Resource temporarily unavailable')
+            if isinstance(ev, list):
+                # ['slow', k, dt]: the transport accepts k bytes but takes dt seconds over it (the caller's deadline
+                # may pass inside a send that succeeds)
+                self.clock.now += ev[2]
+                ev = ev[1]
             k = max(1, min(int(ev), len(data))) if data else 0
         else:
             k = len(data)
@@ -279,7 +284,7 @@ def check_send(c, st):
                     handed += data
                 st.count('send_timeouts')
             except OSError as e:
-                if 'error' not in c['send_script']:
+                if 'error' not in [x for x in c['send_script'] if isinstance(x, str)]:
                     return ('send-raised:OSError', '%r raised %r (case %r)' % (call, e, c))
                 # the transport refused for now (EAGAIN): like a timeout, whatever was accepted stays accounted for
                 timed_out = True
@@ -308,7 +313,9 @@ def check_send(c, st):
         if bytes(sock.peer) != handed:
             return ('send-lost-or-duplicated', 'peer received %r, caller handed %r (case %r)'
                     % (bytes(sock.peer), handed, c))
-        if any(x in ('timeout', 'error') for x in c['send_script']) or any(isinstance(x, int) for x in c['send_script']):
+        if any(isinstance(x, list) for x in c['send_script']):
+            st.count('send_cases_with_slow_transport')
+        if any(x in ('timeout', 'error') for x in c['send_script'] if isinstance(x, str)) or any(isinstance(x, (int, list)) for x in c['send_script']):
             st.see(('send', repr(c['send_script']), repr(c['calls'])))
         st.count('send_cases')
         return None
@@ -426,6 +433,8 @@ def gen(r):
             calls.append([k] if k == 'flush' else [k, rbytes(r, r.choice([0, 1, 3, 10, 50]), b'xyz01')])
         ss = [r.choice([1, 1, 2, 5, 1000, 'timeout', 'error'] if r.random() < 0.5 else [1, 2, 5, 1000, 'timeout'])
               for _ in range(r.randint(0, 12))]
+        if r.random() < 0.4:
+            ss = [['slow', x, r.choice([0.1, 0.6, 3.0, 6.0])] if isinstance(x, int) and r.random() < 0.5 else x for x in ss]
         return {'kind': 'send', 'calls': calls, 'send_script': ss, 'timeout': r.choice([5.0, 0.5])}
     maxsize = r.choice([32768, 32768, 1000, 100, 10, 9])
     payloads = [rbytes(r, min(maxsize, r.choice([0, 0, 1, 2, 5, 9, 10, 11, 99, 100, 101, 300, 1000])),
